@@ -2,6 +2,7 @@ import ZkModel.Public
 import ZkModel.TreeDriver
 import ZkModel.Keygen
 import ZkModel.Json
+import ZkModel.Identity
 /-!
 # Protocol / codec / RLN-object part of the line protocol
 -/
@@ -239,9 +240,13 @@ def stepPure (e : PEnv) (w : List String) : Option String :=
       else some (out (computeIdSecret x1 y1 x2 y2) (fun s => "ok " ++ fr s))
     | _, _, _, _ => none
   | ["id_pair_de", b] => (parseHexBytes b).map (fun b =>
-      if b.length < 64 then "panic" else s!"{fr (Spec.decFr b 0)} {fr (Spec.decFr b 32)}")
+      if e.spec then (if b.length < 64 then "panic" else s!"{fr (Spec.decFr b 0)} {fr (Spec.decFr b 32)}")
+      else out (deserializeIdentityPair b) (fun r => s!"{fr r.1} {fr r.2}"))
   | ["id_tuple_de", b] => (parseHexBytes b).map (fun b =>
-      if b.length < 128 then "panic" else s!"{fr (Spec.decFr b 0)} {fr (Spec.decFr b 32)} {fr (Spec.decFr b 64)} {fr (Spec.decFr b 96)}")
+      if e.spec then (if b.length < 128 then "panic" else s!"{fr (Spec.decFr b 0)} {fr (Spec.decFr b 32)} {fr (Spec.decFr b 64)} {fr (Spec.decFr b 96)}")
+      else out (deserializeIdentityTuple b) (fun r => s!"{fr r.1} {fr r.2.1} {fr r.2.2.1} {fr r.2.2.2}"))
+  | ["fe_de", b] => (parseHexBytes b).map (fun b =>
+      if e.spec then (if b.length < 32 then "panic" else fr (Spec.decFr b 0)) else out (deserializeFieldElement b) fr)
   | ["keygen_seeded", b] => (parseHexBytes b).map (fun b =>
       match Keygen.seededKeygen e.H b with | some (s, c) => s!"{fr s} {fr c}" | none => "model-out-of-fuel")
   | ["keygen_ext_seeded", b] => (parseHexBytes b).map (fun b =>
